@@ -221,9 +221,68 @@ func init() {
 	props["C01"] = func() {
 		decisive['S'] = "Satisfies differs from the boolean reading of the expression (model `satisfies`, proved equal to it: C01.satisfies_spec, verdict_eq_eval)"
 		res.Rule = "random trees (depth<=5/7, 1-6 distinct valid terms of every kind, random parenthesisation and spacing) x allowed lists built from the terms, related spellings/versions and unrelated entries; plus systematic shapes and all shapes up to 4/5 leaves x every non-empty subset of the terms. Non-trivial & distinct = (tree shape, leaf truth vector) of a non-leaf tree"
+		c01LongAlternatives()
 		runTreeProperty(c01Check, scale(12000, 300000), scale(5, 7), scale(4, 5))
 	}
 	replays["C01"] = func(k *kase) *failure { return c01Check(k, false) }
+}
+
+// c01LongAlternatives: one alternative of n ANDed terms for n around machine-word and chunk sizes (coverage kept in a
+// 64-bit set, batches of 64 / 128 terms), every term covered except one at a chosen place of the SORTED alternative
+func c01LongAlternatives() {
+	var pool []string
+	inFam := map[string]bool{}
+	for _, x := range famIDs {
+		inFam[x] = true
+	}
+	for _, x := range tblActive {
+		if !inFam[x] && !strings.HasSuffix(x, "-only") && !strings.HasSuffix(x, "-or-later") {
+			pool = append(pool, x)
+		}
+	}
+	sort.Strings(pool)
+	for _, n := range []int{31, 32, 33, 63, 64, 65, 66, 127, 128, 129, 130, 257} {
+		if n > len(pool) {
+			continue
+		}
+		start := rng.Intn(len(pool) - n + 1)
+		ids := append([]string{}, pool[start:start+n]...) // sorted, distinct, each matched by itself only
+		shuffled := append([]string{}, ids...)
+		rng.Shuffle(n, func(i, j int) { shuffled[i], shuffled[j] = shuffled[j], shuffled[i] })
+		t := leafT(0)
+		for i := 1; i < n; i++ {
+			t = andT(t, leafT(i))
+		}
+		chain := strings.Join(shuffled, " AND ")
+		for _, missing := range []int{-1, 0, 1, n / 2, 62, 63, 64, 65, n - 2, n - 1} {
+			if missing >= n {
+				continue
+			}
+			var allowed []string
+			for i, x := range ids {
+				if i != missing {
+					allowed = append(allowed, x)
+				}
+			}
+			for _, e := range []string{chain, "(" + chain + ") OR " + pool[(start+n)%len(pool)] + "-or-later"} {
+				res.Evaluations++
+				count("long_alternatives")
+				r := implSat(e, allowed)
+				want := missing < 0
+				if r.err != nil || r.panicv != nil || r.ok != want {
+					what := "an alternative of " + itoa(n) + " ANDed terms"
+					if missing >= 0 {
+						what += " whose term at sorted position " + itoa(missing) + " is not covered"
+					}
+					k := &kase{Expr: e, ExprHex: hx(e), Allowed: allowed}
+					if e == chain {
+						k.Tree, k.Terms = t.prefix(), shuffled
+					}
+					fail(failure{Stream: "oracle", What: "Satisfies differs from the Boolean value of the expression: " + what, Case: k, Impl: r.String(), Expected: fmt.Sprint(want)})
+				}
+			}
+		}
+	}
 }
 
 // ---------------------------------------------------------------- shrinking
@@ -986,6 +1045,38 @@ func init() {
 				}
 			}
 		}
+		// terms whose texts concatenate to another term's text (row keys built by joining or hashing strings piecewise):
+		// a = LicenseRef-x, b = any id, c = LicenseRef-x<b>; equivalent forms with different rows must agree on every list
+		for i := 0; i < scale(60, 600); i++ {
+			x := pick(refNames)
+			bt := genValidTerm()
+			if bt.isRef || bt.exc != "" {
+				continue
+			}
+			a, b := "LicenseRef-"+x, bt.text
+			c := "LicenseRef-" + x + refSafe(b)
+			if !implValid(c) || c == a {
+				continue
+			}
+			forms := []string{
+				"(" + a + " AND " + b + ") OR " + c,
+				c + " OR (" + b + " AND " + a + ")",
+				"(" + a + " OR " + c + ") AND (" + b + " OR " + c + ")",
+				"(" + a + " AND " + b + ") OR " + c + " OR (" + c + " AND " + a + ")",
+				c + " OR (" + a + " AND " + b + ") OR (" + a + " AND " + b + " AND " + c + ")",
+			}
+			for _, l := range subsetsOf([]string{a, b, c, "MIT"}, 4) {
+				ref := implSat(forms[0], l).String()
+				res.Evaluations++
+				count("concatenation_forms")
+				for _, f := range forms[1:] {
+					if r := implSat(f, l); r.String() != ref {
+						fail(failure{Stream: "oracle", What: "two forms of one Boolean function give different verdicts (terms whose texts concatenate to another term's text)", Case: &kase{Expr: f, ExprHex: hx(f), Allowed: l, Extra: map[string]string{"plain": forms[0]}}, Impl: r.String(), Expected: ref})
+						break
+					}
+				}
+			}
+		}
 		// redundant parentheses at boundary sizes: chains of n operands, each operand in its own parentheses, and
 		// one operand nested d deep; the verdict and the extracted set must equal those of the plain chain
 		for _, n := range []int{2, 3, 7, 8, 9, 15, 16, 17, 18, 31, 32, 33, 64, 65, 100} {
@@ -1021,6 +1112,13 @@ func init() {
 	replays["C10"] = func(k *kase) *failure {
 		if k.Extra != nil && k.Extra["tree2"] != "" {
 			return c10Check(k, false)
+		}
+		if k.Extra != nil && k.Extra["plain"] != "" {
+			r1, r2 := implSat(k.Extra["plain"], k.Allowed), implSat(k.Expr, k.Allowed)
+			if r1.String() != r2.String() {
+				return &failure{Stream: "oracle", What: "two forms of one Boolean function give different verdicts", Case: k, Impl: r2.String(), Expected: r1.String()}
+			}
+			return nil
 		}
 		r := implSat(k.Expr, k.Allowed)
 		re, rf := implSat(k.Extra["E"], k.Allowed), implSat(k.Extra["F"], k.Allowed)
